@@ -209,6 +209,9 @@ VALUES = [
     ("f1.5", "float", lambda: 1.5),
     ("f-2.25", "float", lambda: -2.25),
     ("f5e-324", "float-subnormal", lambda: 5e-324),
+    ("f1e-12", "float-tiny", lambda: 1e-12),
+    ("f0.3", "float", lambda: 0.3),
+    ("f0.1+0.2", "float-near-equal", lambda: 0.1 + 0.2),
     ("f1e308", "float-huge", lambda: 1e308),
     ("f-1e308", "float-huge", lambda: -1e308),
     ("finf", "float-inf", lambda: inf),
